@@ -19,6 +19,9 @@ NAME_VARIANTS = {
     "empty": ("", None),
     "equal+mac": (EXPECTED, "aabbccddeeff"),
     "different+mac": ("otherdev", "aabbccddeeff"),
+    # near misses: names are compared exactly (case, trailing characters)
+    "case": ("MyDev", None),
+    "longer": ("mydev1", "aabbccddeeff"),
 }
 
 
